@@ -140,7 +140,7 @@ Section Fuse.
     pose proof (bzf_spec zones [] zid cells f Hnd Hin Hne Ef) as Hg.
     unfold select_zxf, apply_zone_index_only, build_for_field. cbn [op_answered negb].
     destruct (build_zone_filters fuse fbuild zones []) as [|e r] eqn:Eb; [discriminate|].
-    rewrite select_some. rewrite <- Eb in *.
+    rewrite select_some by reflexivity. rewrite <- Eb in *.
     eapply in_zones_maybe; [unfold probe_key; rewrite Hl; reflexivity|exact Hg|].
     eapply fuse_contract; [exact Ef|]. eapply zone_keys_in; eassumption.
   Qed.
@@ -202,43 +202,44 @@ Section Fuse.
   Qed.
 
   (** Any operator other than [=]: the pruner answers [None]; once the segment is no
-      longer in flight the selector turns that into "no zones". *)
-  Lemma xor_non_eq_no_zones : forall ix all op l,
-    op <> OEq -> select_zxf fuse fcontains ix false all op l = [].
+      longer in flight the selector turned that into "no zones" — repaired by f801704:
+      for an operator other than [=] the selector now takes every zone of the segment
+      without consulting the xor structures.  (Was [xor_non_eq_no_zones] / [xor_neq_refuted].) *)
+  Lemma xor_non_eq_all_zones : forall ix inflight all op l,
+    op <> OEq -> select_zxf fuse fcontains ix inflight all op l = all.
   Proof.
-    intros ix all op l Hop. unfold select_zxf, apply_zone_index_only.
+    intros ix inflight all op l Hop. unfold select_zxf. apply select_bypass.
+    destruct op; try congruence; reflexivity.
+  Qed.
+  Lemma xor_presence_non_eq_all_zones : forall f all op l,
+    op <> OEq -> select_xf fuse fcontains f all op l = all.
+  Proof.
+    intros f all op l Hop. unfold select_xf. apply select_bypass.
     destruct op; try congruence; reflexivity.
   Qed.
 
-  (** Known class [XorNonEqOperator]. *)
-  Definition xor_known (op : cmp_op) : bool := negb (cmp_op_eqb op OEq).
-
-  Theorem xor_outside_known : forall zones zid cells c l s op inflight all,
-    xor_known op = false ->
+  (** No known class is left for the zone xor index: EVERY operator is sound.  For [=]
+      through the filter contract; for any other operator because all zones of the
+      segment ([all]) are scanned. *)
+  Theorem xor_sound_all_operators : forall zones zid cells c l s op inflight all,
+    In zid all ->
     NoDup (map fst zones) -> In (zid, cells) zones -> In (Some c) cells ->
     value_to_string c = Some s -> value_to_string l = Some s ->
     fbuild (zone_keys cells) <> None ->
     In zid (select_zxf fuse fcontains (build_for_field fuse fbuild zones) inflight all op l).
   Proof.
-    intros zones zid cells c l s op inflight all Hk. unfold xor_known in Hk.
-    destruct op; try discriminate. apply xor_zone_sound.
+    intros zones zid cells c l s op inflight all Hall Hnd Hin Hc Hs Hl Hf.
+    destruct (cmp_op_eqb op OEq) eqn:E.
+    - destruct op; try discriminate. eapply xor_zone_sound; eassumption.
+    - rewrite xor_non_eq_all_zones; [assumption|]. intros ->. discriminate.
   Qed.
 End Fuse.
 
-(** * What the faithful model gets wrong: [!=] (any filter implementation) *)
-Theorem xor_neq_refuted :
-  exists (zones : list (N * list (option scalar))) (zid : N) (cells : list (option scalar)) (c l : scalar),
-    NoDup (map fst zones) /\ In (zid, cells) zones /\ In (Some c) cells /\
-    value_to_string c <> value_to_string l /\ value_to_string l <> None /\
-    forall (fuse : Type) (fbuild : list N -> option fuse) (fcontains : fuse -> N -> bool) all,
-      ~ In zid (select_zxf fuse fcontains (build_for_field fuse fbuild zones) false all ONeq l).
-Proof.
-  exists [(0, [Some (SInt 2)])], 0, [Some (SInt 2)], (SInt 2), (SInt 1).
-  split; [repeat constructor; cbn; tauto|].
-  split; [cbn; tauto|]. split; [cbn; tauto|].
-  split; [vm_compute; discriminate|]. split; [vm_compute; discriminate|].
-  intros fuse fbuild fcontains all. rewrite xor_non_eq_no_zones by discriminate. cbn. tauto.
-Qed.
+(** the former witness of [XorNonEqOperator] now passes, for every filter implementation *)
+Example xor_neq_witness_passes :
+  forall (fuse : Type) (fbuild : list N -> option fuse) (fcontains : fuse -> N -> bool),
+    select_zxf fuse fcontains (build_for_field fuse fbuild [(0, [Some (SInt 2)])]) false [0] ONeq (SInt 1) = [0].
+Proof. intros. apply xor_non_eq_all_zones. discriminate. Qed.
 
 (** the hypotheses of the soundness theorems are satisfiable (with the exact filter) *)
 Example xor_sound_hyps_ok :
